@@ -29,6 +29,7 @@ type C02Scenario struct {
 	Clients   [][]klRound `json:"clients"`
 	HolderKey int         `json:"holder_key"` // -1: none; else a task holds this key behind a gate while the others (never touching it) must all finish
 	HolderW   bool        `json:"holder_write"`
+	NKeys     int         `json:"nkeys"`
 }
 
 // klAdapter hides the two interfaces.
@@ -109,6 +110,13 @@ func drawC02(rt *rapid.T) interface{} {
 	sc.Prime = rapid.SampledFrom([]uint64{1, 2, 3, 7, 73}).Draw(rt, "prime")
 	generic := sc.Variant[0] == 't'
 	nk := rapid.IntRange(2, 5).Draw(rt, "nkeys")
+	long := generic && rapid.IntRange(0, 3).Draw(rt, "longlists") == 0
+	if long {
+		// long multi-key lists with several keys per shard (sorting inside the locker only shows its colours beyond ~12 elements)
+		nk = rapid.IntRange(14, 20).Draw(rt, "nkeys-long")
+		sc.Prime = rapid.SampledFrom([]uint64{1, 2, 3, 7}).Draw(rt, "prime-long")
+	}
+	sc.NKeys = nk
 	sc.HolderKey = -1
 	if rapid.IntRange(0, 3).Draw(rt, "indep") == 0 {
 		sc.HolderKey = rapid.IntRange(0, nk-1).Draw(rt, "holderkey")
@@ -121,6 +129,9 @@ func drawC02(rt *rapid.T) interface{} {
 		}
 	}
 	nc := rapid.IntRange(2, hx.Pick(6, 8)).Draw(rt, "nclients")
+	if long {
+		nc = rapid.IntRange(2, 3).Draw(rt, "nclients-long")
+	}
 	for i := 0; i < nc; i++ {
 		n := rapid.IntRange(1, hx.Pick(4, 7)).Draw(rt, "rounds")
 		var rs []klRound
@@ -132,7 +143,7 @@ func drawC02(rt *rapid.T) interface{} {
 				r.Multi = true
 				// a duplicate-free subset in ascending order (the global order)
 				for _, k := range pool {
-					if rapid.Bool().Draw(rt, "in") {
+					if (long && rapid.IntRange(0, 4).Draw(rt, "in5") != 0) || (!long && rapid.Bool().Draw(rt, "in")) {
 						r.Keys = append(r.Keys, k)
 					}
 				}
@@ -190,7 +201,11 @@ func runC02(t *testing.T, sci interface{}, keepLog bool) *hx.Outcome {
 				}
 			}
 		}
-		for k := 0; k < 6; k++ {
+		nk := sc.NKeys
+		if nk < 6 {
+			nk = 6
+		}
+		for k := 0; k < nk; k++ {
 			r, w, present := st.a.counts(k)
 			if r != wantR[k] || w != wantW[k] {
 				s.Fail("key-count-mismatch", "key %d: locker registers %d reader(s)/%d writer(s), callers holding or waiting: %d/%d", k, r, w, wantR[k], wantW[k])
@@ -255,6 +270,9 @@ func runC02(t *testing.T, sci interface{}, keepLog bool) *hx.Outcome {
 					}
 					if len(r.Keys) > 1 {
 						s.Count("multi-key-held")
+					}
+					if len(r.Keys) > 12 {
+						s.Count("multi-key-list>12-held")
 					}
 					for i := 0; i < r.Hold; i++ {
 						simrt.Yield()
